@@ -202,6 +202,13 @@ func check(prop, tier string, opts map[string]string) int {
 	var cmu sync.Mutex
 	// slices: more slices than workers so that a crash loses little
 	nslices := workers * 4
+	// ... and no more than 3000 runs per worker process: what a run leaves
+	// behind in the process (goroutines of bubbles that could not be wound up,
+	// garbage not yet collected) adds up to gigabytes over tens of thousands of
+	// runs, times sixteen processes
+	if m := (n + 2999) / 3000; m > nslices {
+		nslices = m
+	}
 	if n < nslices {
 		nslices = n
 	}
